@@ -24,6 +24,7 @@ from pyvc import heap as H
 from pyvc.heap import PENDING, RESULT, EXC, CANCELLED, st
 
 LEVEL = "proof"
+STANDIN_ALWAYS_THOROUGH = True      # its large bound takes seconds: used at both tiers
 EXPLANATION = ("Subprocess._set_returncode proved for every wait status (W* macros uninterpreted, POSIX exclusivity): returncode is "
                "-WTERMSIG for a signalled child else WEXITSTATUS, the Popen object is informed, the exit callback runs exactly once "
                "with that code and the slot is cleared; _try_cleanup_process for every waitpid outcome: the pid leaves the "
